@@ -140,7 +140,7 @@ def cmdMser (toks : List String) : String :=
     let rt := match decode t bytes with
       | .ok (v', rest) => s!"{(encode t v').toHex}/{rest.length}"
       | .error e => s!"ERR:{e.code}"
-    s!"tag={tg.toHex} size={size t v} bytes={bytes.toHex} {visited} text={text} specevents={showEvs (events t v)} render={(render t v).toHex} rt={rt}"
+    s!"tag={tg.toHex} size={size t v} bytes={bytes.toHex} {visited} text={text} specevents={showEvs (events t v)} render={(render t v).toHex} renderpp={(renderPP t v).toHex} rt={rt}"
   | _, _ => "bad-op"
 
 /-- destination tokens: the type tokens, with `R<n>` for a sequence node of fixed size n -/
